@@ -8,6 +8,11 @@ WIP = "contracts not completed yet in this build (see DESIGN.md section 12); not
 # id -> (claimed, level, text, note, technique, design_ref)
 P = {
  "C05": (True, "proof", "Kani proves each SpanGuard operation contract from an arbitrary abstract pre-state (induction over operation sequences), loop-free over full-domain symbolic inputs, on the real crate", "trusted: CBMC/Kani; panic unwinding not modelled (panic=abort); macro expansion of #[span] not covered", "contract-based deductive verification (Kani per-operation contracts from symbolic pre-states; Verus for completion event shape)", "8 C05"),
+ "C16": (True, "proof",
+         "Verus proves on the real Template::eq (extracted each run, no statement replaced) that it is total and returns exactly equality of the canonical token sequences, "
+         "and on the real Part::write / Render::write the exact sequence of writer calls (text verbatim; hole = first-wins property value through the formatter if any, else {label}; stop at first error)",
+         "trusted: Str/Formatter/Value mirrors (uninterpreted views), Template::as_literal mirror (slice pattern rejected by Verus), Write/Props trait mirrors, cmp::min spec; macro-generated templates not covered",
+         "contract-based deductive verification (Verus on mechanically extracted functions)", "8 C16"),
  "C15": (True, "proof",
          "Verus proves, for every input, the contracts of the real calendar/format/parse functions extracted from /repo on each run; "
          "a code change that breaks a contract fails a named obligation",
